@@ -16,7 +16,7 @@ pub fn def() -> PropertyDef {
     PropertyDef {
         id: "C13",
         level: "exploration",
-        props: |_| vec![Box::new(LspSpectrum) as Box<dyn DynProp>],
+        props: |_| vec![Box::new(LspSpectrum) as Box<dyn DynProp>, Box::new(LspAfterHistory) as Box<dyn DynProp>],
         extra: no_extra,
         replay_custom: no_custom,
         assumptions: &[
@@ -148,6 +148,81 @@ impl Prop for LspSpectrum {
         rep.class_if(c.use_log_gain, "log-gain");
         rep.class_if(gain == 1.0, "unit-gain");
         rep.class_if(c.alpha == 0.0, "alpha=0");
+        Ok(rep)
+    }
+}
+
+#[derive(Debug, Clone, Serialize)]
+pub struct HistCase {
+    pub base: Case,
+    pub mode: String,
+    pub history: Vec<Vec<f64>>,
+}
+
+/// The response must reflect the CURRENT frame's parameters whatever frames came before.
+pub struct LspAfterHistory;
+
+impl Prop for LspAfterHistory {
+    type Case = HistCase;
+    fn name(&self) -> String {
+        "lsp-after-history".into()
+    }
+    fn rule(&self) -> String {
+        "as lsp-spectrum (rates 16k/48k, orders 2..12), but the vocoder runs with frame period 1 and the measured stationary spectrum is preceded by a generated history: none | up to 40 frames of a spectrum that differs only in a subset of components (gain only, first frequency only, ..) | a slow linear drift of up to 1200 frames with per-frame steps 1e-9..1e-5; the response to the second pulse (hundreds of stationary frames later) must equal the reference impulse response of the final spectrum (1e-6 of its peak). Non-trivial: a non-empty history".into()
+    }
+    fn tape_len(&self, _: Tier) -> usize {
+        128
+    }
+    fn cases(&self, tier: Tier) -> u32 {
+        tier.pick(600, 12_000)
+    }
+    fn decode(&self, t: &mut Tape, _: Tier) -> HistCase {
+        let rate = *t.pick(&[16000usize, 48000]);
+        let alpha = gen_alpha(t);
+        let stage = t.urange(1, 4);
+        let use_log_gain = t.chance(0.5);
+        let m = t.urange(2, 12);
+        let gain = if t.chance(0.2) { 1.0 } else { t.log_uniform(0.3, 3.0) };
+        let mut lsp = vec![if use_log_gain { gain.ln() } else { gain }];
+        lsp.extend(gen_lsp(t, m));
+        let k2 = rate / 20;
+        let (history, mode) = crate::dsp::gen_spectrum_history(t, &lsp, k2 / 2, true);
+        HistCase { base: Case { rate, alpha, stage, use_log_gain, lsp }, mode, history }
+    }
+    fn check(&self, c: &HistCase) -> Result<Report, Failure> {
+        let b = &c.base;
+        let gain = if b.use_log_gain { b.lsp[0].exp() } else { b.lsp[0] };
+        let a = lsp_to_lpc(&b.lsp[1..]);
+        let model = |w: f64| lsp_logmag(gain, &a, b.stage, b.alpha, w);
+        let n = 65536;
+        let ir = minphase_ir(model, n);
+        if tail_energy_fraction(&ir, n / 2) > 1e-24 {
+            return Ok(Report::rejected("reference-longer-than-fft"));
+        }
+        let k2 = (b.rate / 20).max(2);
+        let quiet = k2.saturating_sub(c.history.len());
+        // the first pulse's response (rendered through the history) must be gone at the second pulse
+        if tail_energy_fraction(&ir, quiet.min(k2 / 2)) > 1e-16 {
+            return Ok(Report::rejected("reference-not-decayed-before-second-pulse"));
+        }
+        let window = k2 - 4;
+        let (h, _) = crate::dsp::measure_after_history(&c.history, &b.lsp, b.stage, b.use_log_gain, b.rate, b.alpha, 0.0, window);
+        if let Some(i) = h.iter().position(|x| !x.is_finite()) {
+            fail!("lsp-spectrum", "non-finite sample at {} of the pulse response after a history ({})", i, c.mode);
+        }
+        let r = &ir[..h.len()];
+        let scale = r.iter().fold(0.0f64, |a, x| a.max(x.abs()));
+        let dmax = h.iter().zip(r).fold(0.0f64, |a, (x, y)| a.max((x - y).abs()));
+        let mut rep = Report::new();
+        rep.metric("max_time_domain_error_rel", dmax / scale);
+        ensure!(
+            dmax <= 1e-6 * scale,
+            "lsp-history-dependence",
+            "after the history '{}' ({} frames) the pulse response differs from the impulse response of the CURRENT frame's K/A(z~)^s by {:e} of its peak (order {}, stage {}, alpha {}, log gain {})",
+            c.mode, c.history.len(), dmax / scale, b.lsp.len() - 1, b.stage, b.alpha, b.use_log_gain
+        );
+        rep.nontrivial = !c.history.is_empty();
+        rep.class(format!("history:{}", c.mode.split(':').next().unwrap_or("")));
         Ok(rep)
     }
 }
